@@ -23,6 +23,7 @@ const CAPTURES: &[(&str, &str, Ty)] = &[
     ("cq", "'say \"hi\"'", Ty::Str), ("cq2", "\"it's\"", Ty::Str), ("cq3", "('a\"' + \"b'\")", Ty::Str), ("cbs", "\"back\\\\slash\\n\"", Ty::Str),
     ("cl", "[1, [2, \"x\"], {a: -1}]", Ty::ListAny), ("cln", "[3, -1, 2]", Ty::ListNum), ("cr", "{a: 1, \"k 1\": [true, null], b: {c: -2}}", Ty::Rec),
     ("cf", "(q => q * 2)", Ty::FnNum), ("cb", "true", Ty::Bool),
+    ("cfc", "(q => ([q, 1] via (t => t + 1) into sum))", Ty::FnNum), ("cfw", "(q => ([q, 0] where (t => t > 0) into len or false) into (b => if b then 1 else 0))", Ty::FnNum),
 ];
 
 fn apply(heap: &crate::run::HeapRc, f: Value, args: &[f64]) -> String {
@@ -45,6 +46,28 @@ fn reload(sv: &SerializableValue) -> Result<(crate::run::HeapRc, Value, String),
     let heap = crate::run::new_heap();
     let v = { sv2.to_value(&mut heap.borrow_mut()) }.map_err(|e| format!("to_value: {}", e))?;
     Ok((heap, v, text))
+}
+
+/// correspondence for `parse_function_source`: the real parser's expression statements of
+/// the text go to the model (`extend_lambda_body`, then `expr_to_source` of the body); the
+/// answer is compared with what the real `from_json` makes of `{"__blots_function": text}`
+fn fn_source_check(model: &mut Model, rep: &mut Report, text: &str) {
+    let j = serde_json::json!({ "__blots_function": text });
+    let real = match guarded(|| SerializableValue::from_json(&j)) {
+        Ok(SerializableValue::Lambda(def)) => format!("(fn {} {})", wire::largs(&def.args), wire::hs(&def.body)),
+        Ok(SerializableValue::BuiltIn(_)) => return,
+        Ok(_) => "none".to_string(),
+        Err(p) => { rep.finding("oracle", "panic", text, &p, "c05.panic"); return; }
+    };
+    let stmts = match crate::run::parse_program(text, false) {
+        Ok(s) => s.into_iter().filter_map(|(s, _)| match s { crate::run::Stmt::Expr(e) => Some(e), _ => None }).collect::<Vec<_>>(),
+        Err(_) => vec![],
+    };
+    let m = model.ask(&format!("fn-source ({})", stmts.iter().map(wire::expr).collect::<Vec<_>>().join(" ")));
+    rep.count(if real == "none" { "fn-source-none" } else { "fn-source-fn" });
+    if m != real {
+        rep.finding("model", "parse_function_source", text, &format!("impl={} model={}", short(&real), short(&m)), "c05.model.fn-source");
+    }
 }
 
 pub fn run(ctx: &Ctx, rep: &mut Report) {
@@ -113,6 +136,16 @@ pub fn run(ctx: &Ctx, rep: &mut Report) {
             Ok(Err(_)) => continue,
             Err(p) => { rep.finding("oracle", "panic", &src, &p, "c05.panic"); continue; }
         };
+        // model correspondence for the whole of from_value (captured functions at any depth)
+        {
+            let m = model.ask(&format!("to-sv {}", wire::value(&f, &sess.heap.borrow())));
+            if m != wire::sv(&sv) {
+                rep.finding("model", "from_value", &src, &format!("impl={} model={}", short(&wire::sv(&sv)), short(&m)), "c05.model.from-value");
+            }
+        }
+        if let Some(t) = sv.to_json().get("__blots_function").and_then(|x| x.as_str()) {
+            fn_source_check(&mut model, rep, t);
+        }
         let (heap2, f2, text) = match reload(&sv) {
             Ok(x) => x,
             Err(e) => { rep.finding("oracle", "emitted-function-does-not-reload", &src, &format!("{} :: {}", e, short(&format!("{:?}", sv.to_json()))), "c05.reload"); continue; }
@@ -144,6 +177,44 @@ pub fn run(ctx: &Ctx, rep: &mut Report) {
         }
         if cli.len() < ctx.budget(10, 80) && i % 7 == 0 && !src.contains("0/0") && !src.contains("inf") {
             cli.push((format!("{}\noutput fun = {}", prelude.join("\n"), fsrc), vec![1.0]));
+        }
+    }
+    // function-source texts: chains after the lambda, non-functions, several statements
+    for t in [
+        "(x) => [1, 2, 3] via (y) => y * x", "(x) => range(2, 6) into len", "(a, b) => [a, b] where (v) => v > 1 via (v) => v * 2 or false",
+        "x => x", "(x) => x + 1 and true", "f via g", "[1] via (x) => x", "1 + 2", "1\n(x) => x", "(x) => x\n2", "x = (y) => y", "output z = (y) => y",
+        "(x) => x into (y) => y into (z) => z", "(x?, ...r) => r where (v) => v == x", "((x) => x) via f", "(x) => (x via f)", "", "(", "sum",
+        "(x) => if x then [1] via (y) => y else 2", "(x) => -x via f", "(x) => x! into f", "(x) => do {\n  return x\n} into f",
+    ] {
+        fn_source_check(&mut model, rep, t);
+    }
+    // a function whose body is a chain reloads and applies (fixed probes beside the generated ones)
+    for (src, args) in [
+        ("arr = [1, 2, 3]\nfun = x => (arr via y => y * x)\nfun", vec![2.0]),
+        ("fun = x => (range(2, 6) into len)\nfun", vec![1.0]),
+        ("k = 2\nfun = (a, b) => ([a, b] where (v => v > 1) via (v => v * k) into sum)\nfun", vec![1.0, 5.0]),
+        ("fun = x => ([x] via (q => q + 1) or false)\nfun", vec![1.0]),
+        ("g = x => ([x] via (t => t + 1))\nfun = y => g(y)\nfun", vec![5.0]),
+        ("fs = [x => (x into (q => q * 2))]\nfun = y => fs[0](y)\nfun", vec![4.0]),
+        ("r = {k: x => ([x, 0] where (q => q > 0))}\nfun = y => r.k(y)\nfun", vec![4.0]),
+        ("g = x => ([x] via (t => t + 1))\nh = y => g(y) into sum\nfun = z => h(z)\nfun", vec![5.0]),
+    ] {
+        let stmts = match statements(src) { Ok(s) => s, Err(_) => { rep.finding("oracle", "probe-rejected", src, "", "c05.probe"); continue } };
+        let sess = run_real(&stmts, None, src);
+        let f = match sess.raw.last() { Some(Ok(Ok(v @ Value::Lambda(_)))) => *v, _ => continue };
+        rep.case(src, true);
+        match guarded(|| SerializableValue::from_value(&f, &sess.heap.borrow())) {
+            Ok(Ok(sv)) => match reload(&sv) {
+                Ok((h2, f2, text)) => {
+                    let a = apply(&sess.heap, f, &args);
+                    let b = apply(&h2, f2, &args);
+                    if a != b || !matches!(f2, Value::Lambda(_)) {
+                        rep.finding("oracle", "reloaded-function-differs", src, &format!("original={} reloaded={} emitted={}", short(&a), short(&b), short(&text)), "c05.equivalence");
+                    }
+                }
+                Err(e) => rep.finding("oracle", "emitted-function-does-not-reload", src, &e, "c05.reload"),
+            },
+            _ => rep.finding("oracle", "emit-failed", src, "", "c05.reload"),
         }
     }
     // known-finding probes (exact inputs): an assignment nested inside the body shadows a captured
